@@ -435,6 +435,8 @@ def runReq (r : Report) (st : St) (sidx : Nat) (l : Line) (m p : String) (auth :
           r := r.violation sidx l.idx s!"request {m} {p}: route handler h={h} wrote status [{want.getD "none (200)"}] but the response status is [{status.getD "200"}]"
         let ms := rmetaOf h
         if ms.any fun x => x.1.isSome then r := r.addCover "hit-jwt-route-token-accepted"
+        if ms.any fun x => x.1.any fun ab => ab.2 != "" && auth == some ab.2 && ab.1 != ab.2 then
+          r := r.addCover "hit-jwt-route-token-signed-with-previous-secret"
         if trail ≠ "" then r := r.addCover "hit-behind-route-middlewares"
         if (trail.splitOn ".").any (·.startsWith "u") then r := r.addCover "hit-behind-Server.Use-middlewares"
         if (trail.splitOn ".").any (·.startsWith "c") then r := r.addCover "hit-behind-WithChain-middlewares"
